@@ -5,7 +5,7 @@ from common import *
 
 ID = "C17"
 GEN = ["Units"]
-THEOREMS = ["C17_range", "C17_range_overflow_iff", "C17_refuted_overflow", "C17_range_step_never_overflows",
+THEOREMS = ["C17_range", "C17_range_never_panics", "C17_for_total",
             "C17_for_unit", "C17_bounds_units", "C17_if_chain", "C17_define_multi", "C17_each", "C17_while_sound", "C17_while_complete",
             "C17_while_spec"]
 COQ_HEADER = ("From Coq Require Import String List ZArith NArith.\n"
@@ -24,7 +24,7 @@ TRUSTED = ["Spec/SassFlow.v: reference semantics of @if/@for/@each/@while writte
            "python: number text -> binary64 (float()) for the @for outputs"]
 ASSUMPTIONS = ["@while is modelled over an abstract state; the generated loops use integer counters |i| <= 2^20 (exact in f64)",
                "bodies of directives are observed through the declarations they emit (x: $i, n: inspect($n))",
-               "@for bounds beyond the i64 range other than at its edge (e.g. 1e300) are not generated"]
+               "@for bounds beyond the i64 range (1e300; also the literal 9223372036854775807, which is the f64 2^63 and saturates to i64::MAX) are generated only with from = to"]
 
 UNITS = ["em", "ex", "ch", "rem", "vw", "vh", "vmin", "vmax", "cm", "mm", "Q", "in", "pt", "pc", "px",
          "deg", "grad", "rad", "turn", "s", "ms", "Hz", "kHz", "dpi", "dpcm", "dppx", "%", "fr",
@@ -179,7 +179,7 @@ def gen_for(rng, n):
 EXTREMES = [
     ("9223372036854775806", "9223372036854775807", True),
     ("9223372036854775807", "9223372036854775807", True),
-    ("9223372036854774784", "9223372036854775807", True),
+    ("9223372036854774784", "9223372036854774790", False),
     ("-9223372036854774784", "-9223372036854775808", True),
     ("-9223372036854775808", "-9223372036854775808", True),
     ("-9223372036854775808", "-9223372036854775808", False),
@@ -407,7 +407,7 @@ def coq_term(c, io):
     return f"(mkCase {input_term(c)} {impl_term(c, io)})"
 
 
-KCLASS = {0: None, 1: "known_C17_K1_i64_edge", 2: "known_C17_K2_lone_units"}
+KCLASS = {0: None, 2: "known_C17_K2_lone_units"}
 KIND = {1: "for", 2: "if", 3: "each", 4: "while", 5: "while-list"}
 
 
@@ -444,12 +444,12 @@ def shrink(c):
                 yield dict(c, ua=u, ub=u)
 
 
-LEVEL_TEXT = ("proof: for ALL i64 bounds the model of ValueRange yields exactly the integer interval (ascending/descending, "
-              "inclusive/exclusive) unless `to + step` leaves i64, which is exactly when it panics (refuted witness F2); "
+LEVEL_TEXT = ("proof: for ALL i64 bounds the model of ValueRange (i128 end bound) yields exactly the integer interval (ascending/"
+              "descending, inclusive/exclusive) and never panics (F2 fixed by 48adbab); "
               "if-chains run the first truthy branch (induction over the chain); define_multi/@each equal the reference "
               "destructuring for all names and values; @while runs while truthy (sound + complete in the fuel); the models "
               "are tied to the code by exact-output correspondence on generated programs")
 LEVEL_NOTE = ("trusted: Coq kernel+vm_compute, Flocq binary64, gen/rs2v.py unit tables, the harness, Spec/SassFlow.v, "
               "Spec/CssUnits.v, the inspect printer; bodies are abstract (observed through emitted declarations); "
-              "known findings: F2 (i64 edge panic), F15 (invented unit ratios reach @for bounds)")
+              "known finding: F15 (invented unit ratios reach @for bounds); F2 fixed")
 TECHNIQUE = "Coq proof (induction / arithmetic over Z) + differential correspondence on generated SCSS programs"
